@@ -1306,6 +1306,16 @@ def _dict_decorators() -> Dict[str, Callable[[_FN], _FN]]:
         _tidy(update)
         return update
 
+    def __ior__(fn):
+        def __ior__(self, other):
+            # dict.__ior__ is dict.update() returning self; route it through
+            # the instrumented update() so that events are fired
+            self.update(other)
+            return self
+
+        _tidy(__ior__)
+        return __ior__
+
     l = locals().copy()
     l.pop("_tidy")
     return l
